@@ -84,16 +84,31 @@ def scenario(tier):
             check_dirhashes(b, b.manifests("R")[-1], "R", fmts, ignored, "parent of nested history")
             check_dirhashes(b, b.manifests("R/d")[-1], "R/d", fmts, cm.make_ignored(cm.DEFAULT_IGNORES + pats, "R/d"), "nested history")
             return
-        r = b.run("create", root="R", h=hs, i=pats)
+        late = tmp and sym.flag("pattern_introduced_by_a_later_generation_without_directory_hashes")
+        r = b.run("create", root="R", h=hs, i=[] if late else pats)
         b.require(r.exit == 0 and r.exc is None, "create-exit-0", str(r))
         m = b.manifests("R")[-1]
-        ref1 = check_dirhashes(b, m, "R", fmts, ignored, "gen1")
+        ref1 = check_dirhashes(b, m, "R", fmts, cm.make_ignored(cm.DEFAULT_IGNORES, "R") if late else ignored, "gen1")
+        if late:
+            # the pattern enters the history through a generation that records no directory hashes (-n or -sf): it still is
+            # part of the history's ignore specification and applies to every later evaluation
+            if sym.flag("via_single_file"):
+                r = b.run("create", root="R", h=hs, i=pats, sf=["R/f1.txt"])
+            else:
+                r = b.run("create", root="R", h=hs, i=pats, n=True)
+            b.require(r.exit == 0 and r.exc is None, "create-exit-0", "pattern generation: %s" % r)
+            ref1 = {}
+            for f in fmts:
+                ref1[(f, "R")] = b.dir_hashes(f, "R", ignored)
+                ref1[(f, "R/d")] = b.dir_hashes(f, "R/d", ignored)
         if b.exists("R/z"):
             z = m.record("z")
             b.require(z is not None and all(truth(e.digest == b.Hempty(e.fmt)) for e in z.entries), "empty-dir-is-empty-input", "")
         # verify -dh -co prints the same values
         r = b.run("verify", root="R", dh=True, co=True)
-        b.require(r.exc is None, "verify-co-no-error", str(r))
+        # (the directory hashes recorded before the pattern existed cover skip.tmp as well: the comparison may fail with exit 12,
+        # the printed values are still the definition over the entries that are not ignored now)
+        b.require(r.exc is None or (late and r.exit == 12), "verify-co-no-error", str(r))
         for f in fmts:
             c, s = ref1[(f, "R")]
             lines = [l for l in r.out if "calculated root hash" in l and (" %s: " % f) in l]
@@ -122,8 +137,8 @@ def scenario(tier):
             extra = [f for f in ["sha1", "md5"] if f not in fmts][0]
             r = b.run("create", root="R", h=hs + [extra], i=pats)
             check_dirhashes(b, b.manifests("R")[-1], "R", fmts + [extra], ignored, "gen3 (format %s added) after %s" % (extra, mut))
-        # corollaries of the definition (checked on the recorded values)
-        for f in fmts:
+        # corollaries of the definition (checked on the recorded values; not comparable when the ignore patterns changed in between)
+        for f in ([] if late else fmts):
             c1, s1 = [(e.digest, e.structure) for e in m.roothash if e.fmt == f][0]
             c2, s2 = [(e.digest, e.structure) for e in m2.roothash if e.fmt == f][0]
             if mut.startswith("rename"):
